@@ -10,6 +10,7 @@ TRUSTED_BASE = [
     "failing-input search (harness search) uses f64 reference implementations; it supports the proof (replays, margins) and never replaces a theorem",
 ]
 
+FILES = {}
 def P(level, modules, explanation, builds=None, builds_thorough=None, partial=None, assumptions=None):
     d = {'level': level, 'modules': modules, 'explanation': explanation, 'builds': builds or ['default'],
          'builds_thorough': builds_thorough or ['default', 'fma', 'checked'], 'partial': partial or [], 'assumptions': assumptions or []}
@@ -38,3 +39,13 @@ PROPS = {
     'C20': P('proof', ['C20'], 'build configuration: feature-resolution theorem on the regenerated manifests; every model theorem is stated for both fma values; correspondence and search under four builds',
              builds=['default', 'fma', 'nofast', 'checked'], builds_thorough=['default', 'fma', 'nofast', 'checked']),
 }
+
+YUVRGB = ['src/yuv_rgb.rs', 'src/yuv_rgb/color.rs', 'yuvxyb-math/src/matrix.rs', 'yuvxyb-math/src/mul_add.rs', 'src/yuv.rs', 'src/rgb.rs']
+TRANSFER = ['src/yuv_rgb/transfer.rs', 'yuvxyb-math/src/pow_exp.rs', 'yuvxyb-math/src/mul_add.rs', 'src/rgb.rs', 'src/linear_rgb.rs']
+XYB = ['src/rgb_xyb.rs', 'yuvxyb-math/src/cbrtf.rs', 'src/xyb.rs', 'src/linear_rgb.rs']
+ALL = YUVRGB + TRANSFER + XYB + ['src/hsl.rs', 'src/errors.rs']
+# source files whose structural change makes the check of a property escalate to the thorough streams
+FILES.update({'C01': YUVRGB, 'C02': YUVRGB, 'C03': TRANSFER, 'C04': XYB, 'C05': XYB, 'C06': ['src/yuv_rgb/color.rs', 'yuvxyb-math/src/matrix.rs', 'src/rgb.rs', 'src/linear_rgb.rs'],
+              'C07': ALL, 'C08': YUVRGB, 'C09': ALL, 'C10': TRANSFER, 'C11': ALL, 'C12': ['src/yuv.rs', 'src/rgb.rs', 'src/linear_rgb.rs', 'src/xyb.rs', 'src/hsl.rs'],
+              'C13': ALL, 'C14': ALL, 'C15': ALL, 'C16': ALL, 'C17': ['src/hsl.rs', 'src/linear_rgb.rs'], 'C18': ['yuvxyb-math/src/pow_exp.rs', 'yuvxyb-math/src/cbrtf.rs', 'yuvxyb-math/src/mul_add.rs'],
+              'C19': ['yuvxyb-math/src/matrix.rs', 'yuvxyb-math/src/mul_add.rs'], 'C20': ALL})
